@@ -98,6 +98,37 @@ impl ConnectionInfo {
             ..Default::default()
         }
     }
+
+    /// Verification hook: the private credit counters `(peer_buf_alloc, peer_fwd_cnt, tx_cnt,
+    /// fwd_cnt, has_pending_credit_request)`.
+    #[cfg(virtio_drivers_verif)]
+    pub fn verif_counters(&self) -> (u32, u32, u32, u32, bool) {
+        (
+            self.peer_buf_alloc,
+            self.peer_fwd_cnt,
+            self.tx_cnt,
+            self.fwd_cnt,
+            self.has_pending_credit_request,
+        )
+    }
+
+    /// Verification hook: presets the private credit counters, so that a history can start next
+    /// to the point where the free-running 32-bit counters wrap.
+    #[cfg(virtio_drivers_verif)]
+    pub fn verif_set_counters(
+        &mut self,
+        peer_buf_alloc: u32,
+        peer_fwd_cnt: u32,
+        tx_cnt: u32,
+        fwd_cnt: u32,
+        has_pending_credit_request: bool,
+    ) {
+        self.peer_buf_alloc = peer_buf_alloc;
+        self.peer_fwd_cnt = peer_fwd_cnt;
+        self.tx_cnt = tx_cnt;
+        self.fwd_cnt = fwd_cnt;
+        self.has_pending_credit_request = has_pending_credit_request;
+    }
 }
 
 /// An event received from a VirtIO socket device.
@@ -461,6 +492,28 @@ fn read_header_and_body(buffer: &[u8]) -> Result<(VirtioVsockHdr, &[u8])> {
         .get(size_of::<VirtioVsockHdr>()..data_end)
         .ok_or(SocketError::BufferTooShort)?;
     Ok((header, data))
+}
+
+/// Verification hook: `read_header_and_body`, the header returned as its ten fields in declaration
+/// order, decoded by the crate's own types.
+#[cfg(virtio_drivers_verif)]
+pub fn verif_read_header_and_body(buffer: &[u8]) -> Result<([u64; 10], &[u8])> {
+    let (header, body) = read_header_and_body(buffer)?;
+    Ok((
+        [
+            header.src_cid.get(),
+            header.dst_cid.get(),
+            header.src_port.get().into(),
+            header.dst_port.get().into(),
+            header.len.get().into(),
+            header.socket_type.get().into(),
+            header.op.get().into(),
+            header.flags.get().into(),
+            header.buf_alloc.get().into(),
+            header.fwd_cnt.get().into(),
+        ],
+        body,
+    ))
 }
 
 #[cfg(test)]
